@@ -1,5 +1,7 @@
 pub mod c01;
 pub mod c03;
+pub mod c04;
+pub mod c10;
 pub mod c06;
 pub mod c07;
 pub mod c11;
@@ -43,6 +45,8 @@ pub fn monitor_for(property: &str) -> Option<Monitor> {
     match property {
         "C01" => Some(c01::run),
         "C03" => Some(c03::run),
+        "C04" => Some(c04::run),
+        "C10" => Some(c10::run),
         "C06" => Some(c06::run),
         "C07" => Some(c07::run),
         "C11" => Some(c11::run),
